@@ -83,6 +83,8 @@ struct Outcome {
 
 struct Finding {
   std::string key, detail;
+  double weight = 0.; // error / tolerance for conservation findings: the clearest case of a key is reported
+  Finding(const std::string &k, const std::string &d, const double w = 0.) : key(k), detail(d), weight(w) {}
 };
 
 static const char *VARNAME[5] = {"mass", "momentum-x", "momentum-y", "momentum-z", "energy"};
@@ -103,20 +105,24 @@ struct Stats {
     uint64_t ordinal;
     std::string detail, replay;
     uint64_t count;
+    double weight;
+    /// the reported case of a key: largest weight, then smallest enumeration ordinal (deterministic)
+    bool better(const double w, const uint64_t o) const { return w > weight || (w == weight && o < ordinal); }
   };
   std::map< std::string, V > violations;
   std::vector< std::pair< uint64_t, std::string > > samples;
   void violation(const std::string &key, const uint64_t ordinal, const std::string &detail,
-                 const std::string &replay) {
+                 const std::string &replay, const double weight = 0.) {
     auto it = violations.find(key);
     if (it == violations.end())
-      violations[key] = V{ordinal, detail, replay, 1};
+      violations[key] = V{ordinal, detail, replay, 1, weight};
     else {
       ++it->second.count;
-      if (ordinal < it->second.ordinal) {
+      if (it->second.better(weight, ordinal)) {
         it->second.ordinal = ordinal;
         it->second.detail = detail;
         it->second.replay = replay;
+        it->second.weight = weight;
       }
     }
   }
@@ -144,7 +150,7 @@ struct Stats {
         violations[kv.first] = kv.second;
       else {
         it->second.count += kv.second.count;
-        if (kv.second.ordinal < it->second.ordinal) {
+        if (it->second.better(kv.second.weight, kv.second.ordinal)) {
           const uint64_t cnt = it->second.count;
           it->second = kv.second;
           it->second.count = cnt;
@@ -245,7 +251,8 @@ static void judge(const Case &c, const Outcome &o, Stats &S, std::vector< Findin
                        "wall Mach %.3g, pre-clamp minima mass %.3g energy %.3g)",
                        VARNAME[j], o.before[j], o.after[j], err,
                        err / (std::fabs((double)o.before[j]) + DBL_MIN), TOL_K, o.scale[j], tol,
-                       o.trace.wall_mach, o.trace.preclamp_min_mass, o.trace.preclamp_min_energy)});
+                       o.trace.wall_mach, o.trace.preclamp_min_mass, o.trace.preclamp_min_energy),
+                   std::min(ratio, 1.e300)});
   }
 }
 
@@ -520,7 +527,7 @@ int main(int argc, char **argv) {
             findings.clear();
             judge(c, o, S, findings);
             for (auto &f : findings)
-              S.violation(f.key, ord, f.detail + " :: " + case_text(c), case_json(c));
+              S.violation(f.key, ord, f.detail + " :: " + case_text(c), case_json(c), f.weight);
             if (ord % 1000003 == 17 || (S.samples.size() < 2 && o.changed && il + 1 == layouts.size()))
               S.samples.push_back({ord, fmt("{\"case\": %s, \"class\": \"%s\", \"wall_mach\": %.4g, "
                                             "\"mass_before\": %.17Lg, \"mass_after\": %.17Lg, "
